@@ -616,10 +616,10 @@ def unchanged_all(out):
 class C19(Prop):
     pid = "C19"
     theorems = ["C19_reject_guarded", "C19_reject_frame_generic", "C19_frame_generic_fitted",
-                "C19_reject_frame_current", "C19_reject_frame_transform_init", "C19_transform_never_writes",
-                "C19_unguarded_refuted", "C19_crash_gaps_refuted", "C19_accept_valid",
-                "C19_verdict_zero_sound", "C19_predicate_spec", "C19_before_fix_refit_refuted",
-                "C19_before_fix_refit_all_classes_refuted"]
+                "C19_reject_frame_current", "C19_reject_frame_transform_init",
+                "C19_transform_never_writes", "C19_unguarded_refuted", "C19_crash_gaps_refuted",
+                "C19_accept_valid", "C19_verdict_zero_sound", "C19_predicate_spec",
+                "C19_before_fix_refit_refuted", "C19_before_fix_refit_all_classes_refuted"]
     rule = ("one case = (class among the 9 carver/discretizer classes, entry point init/fit/refit/transform, "
             "ONE malformed class injected at a random position (row / column / permutation drawn from the "
             "case's PRNG) into an otherwise valid 40-80 row sample, train or dev side); every expressible "
